@@ -50,10 +50,13 @@ struct Params {
     uint64_t a[NEVAL][MAXDIM];
     uint64_t ainv[NEVAL][MAXDIM];
     uint64_t salt;
-    explicit Params(uint64_t inSalt = 0x5EEDull) : salt(inSalt){
+    // flat = true: every evaluation point is 1, i.e. geometry is ignored and values are plain sums of weights
+    // (used for orderings whose position-code conventions are library defined, see F-HILBERT)
+    explicit Params(uint64_t inSalt = 0x5EEDull, bool flat = false) : salt(inSalt){
         for(int k = 0 ; k < NEVAL ; ++k){
             for(int d = 0 ; d < MAXDIM ; ++d){
                 uint64_t v = splitmix(inSalt * 1315423911ull + uint64_t(k) * 131 + uint64_t(d) * 7 + 17) % (P - 3) + 2;
+                if(flat) v = 1;
                 a[k][d] = v;
                 ainv[k][d] = inv(v);
             }
